@@ -81,3 +81,27 @@ twin("C02-T2", "C02", "clamp written as max()", M, "Model.update_links", "      
 twin("C02-T3", "C02", "if source_popsize != 0", M, "Model.update_links", "                if source_popsize:\n", "                if source_popsize != 0:\n")
 twin("C02-T4", "C02", "np.where form for the timed sibling", M, "TimedCompartment.resolve_outflows", "rescale = np.divide(1, total_outflow, out=np.ones_like(total_outflow), where=total_outflow > 1)", "rescale = np.where(total_outflow > 1, 1 / total_outflow, 1)")
 twin("C02-T5", "C02", "np.maximum clip in TimedCompartment.update", M, "TimedCompartment.update", "        self._vals[self._vals[:, ti] < 0, ti] = 0", "        self._vals[:, ti] = np.maximum(self._vals[:, ti], 0)")
+
+# =============================================================================================== C03
+mutant("C03-M1", "C03", "R03a", "rate: transition * (dt * timescale)", M, "Model.update_links", "converted_frac = transition * (self.dt / par.timescale)", "converted_frac = transition * (self.dt * par.timescale)")
+mutant("C03-M2", "C03", "R03a", "duration: dt * timescale / transition", M, "Model.update_links", "converted_frac = self.dt / (transition * par.timescale)", "converted_frac = self.dt * par.timescale / transition")
+mutant("C03-M3", "C03", "R03a", "number branch without / source_popsize", M, "Model.update_links", "converted_frac = converted_amt / source_popsize", "converted_frac = converted_amt")
+mutant(
+    "C03-M4",
+    "C03",
+    "R03a",
+    "duration branch deleted",
+    M,
+    "Model.update_links",
+    "            elif par.units == FS.QUANTITY_TYPE_DURATION:\n                try:\n                    converted_frac = self.dt / (transition * par.timescale)\n                except Exception as e:\n                    raise ModelError(f\"Error when converting the parameter {par} to a per timestep value.\") from e\n                for link in par.links:\n                    link._cache = converted_frac\n",
+    "",
+)
+mutant("C03-M5", "C03", "R03a", "Link.update divides by the fraction", M, "Link.update", "self.source.vals[ti] * converted_frac", "self.source.vals[ti] / converted_frac / self.source.vals[ti]")
+mutant("C03-M8", "C03", "R03a", "number: dt dropped", M, "Model.update_links", "converted_amt = transition * (self.dt / par.timescale)", "converted_amt = transition / par.timescale")
+mutant("C03-M9", "C03", "R03a", "fall-through no longer raises", M, "Model.update_links", "                raise ModelError(\"Encountered unknown units '%s' for Parameter '%s' (%s) in Population %s\" % (par.units, par.name, par_label, par.pop.name))", "                logger.warning(\"Encountered unknown units '%s' for Parameter '%s' (%s) in Population %s\" % (par.units, par.name, par_label, par.pop.name))")
+mutant("C03-M10", "C03", "R03a", "resolve_outflows multiplies by the stock twice", M, "Compartment.resolve_outflows", "link.vals[ti] = link._cache * n", "link.vals[ti] = link._cache * n * self.vals[ti]")
+mutant("C03-M11", "C03", "R03a", "proportion filter dropped from transition_pars", M, "Model._set_exec_order", "if par.links and par.units != FS.QUANTITY_TYPE_PROPORTION:", "if par.links:")
+twin("C03-T1", "C03", "transition * dt / timescale", M, "Model.update_links", "converted_frac = transition * (self.dt / par.timescale)", "converted_frac = transition * self.dt / par.timescale")
+twin("C03-T2", "C03", "scale = dt / timescale hoisted", M, "Model.update_links", "                try:\n                    converted_frac = transition * (self.dt / par.timescale)", "                scale = self.dt / par.timescale\n                try:\n                    converted_frac = scale * transition")
+twin("C03-T4", "C03", "rate and probability as a set test", M, "Model.update_links", "if par.units == FS.QUANTITY_TYPE_RATE or par.units == FS.QUANTITY_TYPE_PROBABILITY:", "if par.units in {FS.QUANTITY_TYPE_RATE, FS.QUANTITY_TYPE_PROBABILITY}:")
+twin("C03-T5", "C03", "duration via reciprocal product", M, "Model.update_links", "converted_frac = self.dt / (transition * par.timescale)", "converted_frac = (self.dt / par.timescale) / transition")
